@@ -115,6 +115,7 @@ type Exec struct {
 	mapWritten   map[*Map]bool
 	mapUnlocked  map[*Map]map[string]int
 	harnessFn    map[*ssa.Function]bool
+	onceDone     map[*Value]bool
 	unlockedCache int
 	curInstr     ssa.Instruction
 	stack        []*ssa.Function
@@ -539,6 +540,15 @@ func (e *Exec) callFn(fn *ssa.Function, args []Value, env []Value) Value {
 	}
 	if fn.Synthetic == "package initializer" && fn.Pkg != e.pkg && !initWhitelist[fn.Pkg.Pkg.Path()] {
 		return nil
+	}
+	if r := fn.Signature.Recv(); r != nil {
+		rt := r.Type()
+		if p, ok := rt.(*types.Pointer); ok {
+			rt = p.Elem()
+		}
+		if isTimeTime(rt) {
+			return e.nativeTimeMethod(fn, args)
+		}
 	}
 	if fn.Blocks == nil {
 		e.cut("unsupported-external:" + fn.String())
